@@ -152,3 +152,40 @@ def run(cx):
         cx.check('C13.P2', len(tbs) == 1 and bool(re.search(r'^TSigner::encode_response_tbs\(arg1\.kind@Signed\.signer,arg1\.kind@Signed\.request_mac,arg2,', tbs[0].term)), g.path, 'call', 'tbs=request-mac+response+tsig-vars', tbs[0].term[:200] if tbs else 'none')
         for s in mac:
             cx.check('C13.P2', 'TSigner::encode_response_tbs(' in s.term, g.path, s.key(), 'mac-over-tbs', s.term[:160], s.loc)
+
+    # ---------------------------------------------------------------- Q1 what the MAC covers (RFC 8945 4.3.3 "TSIG Variables")
+    # NAME, CLASS, TTL, Algorithm Name, Time Signed, Fudge, Error, Other Len, Other Data - in this order; a field left out of the
+    # MAC input can be rewritten on the wire without invalidating the signature (the fudge widens the acceptance window)
+    mf = cx.fn('C13.Q1', 'hickory_proto::rr::rdata::tsig::TSIG::emit_tsig_for_mac')
+    if mf:
+        def tokens(g, self_arg, depth=0):
+            out = []
+            calls = [s_ for s_ in cx.calls(g, r'.') if re.search(r'BinEncodable>::emit$|BinEncoder<.*>::emit_\w+$|BinEncoder::emit_\w+$|TSIG::\w+$', s_.label) and 'with_name_encoding' not in s_.label]
+            order = sorted(calls, key=lambda s_: (len([1 for o in calls if o.bb != s_.bb and s_.bb in cx.reachable_from(g, [o.bb])]), s_.bb))
+            for s_ in order:
+                t_ = s_.term
+                m_ = re.match(r'^TSIG::(\w+)\(' + self_arg + r'[,)]', t_)
+                if m_ and depth < 2:
+                    h = cx.prog.fn('hickory_proto::rr::rdata::tsig::TSIG::' + m_.group(1))
+                    if h and h.path != g.path:
+                        out += tokens(h, 'arg1', depth + 1)
+                    continue
+                first = core.split_args(t_[t_.index('(') + 1:-1])[0] if '(' in t_ else ''
+                if t_.startswith('BinEncoder::emit_'):
+                    first = core.split_args(t_[t_.index('(') + 1:-1])[-1]
+                for name, rx in (('name', r'^arg3$'), ('class', r'^DNSClass::ANY$'), ('ttl', r'^0$'), ('algorithm', r'\.algorithm$'), ('time', r'\.time\b'),
+                                 ('fudge', r'\.fudge$'), ('error', r'\.error\b'), ('other-len', r'Vec::len\(' + self_arg + r'\.other\)'), ('other', r'\.other$')):
+                    if re.search(rx, first):
+                        if not out or out[-1] != name:
+                            out.append(name)
+                        break
+                else:
+                    out.append('?' + first[:30])
+            return out
+        import core
+        seq = tokens(mf, 'arg1')
+        want = ['name', 'class', 'ttl', 'algorithm', 'time', 'fudge', 'error', 'other-len', 'other']
+        cx.check('C13.Q1', seq == want, mf.path, 'emits', 'mac-input=RFC8945-4.3.3-TSIG-variables-in-order', 'emitted: ' + ','.join(seq), f'{mf.file}:{mf.line}',
+                 sample={'fn': 'TSIG::emit_tsig_for_mac', 'fields': seq, 'holds': seq == want})
+        low = cx.calls(mf, r'BinEncoder<.*>::with_name_encoding$|BinEncoder::with_name_encoding$')
+        cx.check('C13.Q1', len(low) == 1 and low[0].term.endswith('NameEncoding::UncompressedLowercase)'), mf.path, 'calls', 'names-in-canonical-wire-format', '; '.join(x.term[-60:] for x in low))
